@@ -520,7 +520,11 @@ func invCheck(s *Scn) {
 			return ok
 		}
 	}
+	// keys have exactly the protocol's layout also because they are built into fresh memory: the
+	// prefixes (function object, package level; spare capacity included) are never written
+	verif.WatchObject(s.Fn, "function-object")
 	s.Run()
+	verif.WatchOn(false)
 	verif.Reach("success", s.Err == nil)
 	verif.Reach("wrote-something", len(s.W.Log) > 0)
 	verif.ObserveBool("ok", s.Err == nil)
